@@ -143,6 +143,17 @@ CHECKS = {
     note='No torn writes (a mutation is atomic); MockStorage behind a recording/fault-injecting wrapper; node-level scenarios live in one block '
          'file (7-block tree), file-boundary crash points are covered at store level.',
     technique='TLA+ model invariant (TLC) + exhaustive crash-point / single-fault enumeration over recorded storage mutations of replayed scenarios'),
+ 'C08': dict(
+    engine='FilterCases',
+    category='model_checking',
+    text='Declarative TLA+ specification of the subscription filter (spec/FilterCases.tla: scripts as token sequences with an optional malformed tail, '
+         'bag of subscribed hashes with raw/hash equivalence, contract flag and action output). TLC enumerates every case up to the bound with its '
+         'expected verdict; each case is realised as bytes in several encodings (direct push, PUSHDATA1/2/4, small-integer and other opcodes, '
+         'truncations) and run through the real Subscribe/Unsubscribe calls and IsRelevant; TLC (Props_Filter) compares verdicts and crash status.',
+    design_ref='DESIGN.md 5.6, 6 (C08)',
+    note='Exhaustive over abstract cases (length <= 3 quick / 4 thorough); bytes per token are representative encodings; the hash function and the '
+         'Tokenized action parser are trusted libraries.',
+    technique='declarative TLA+ spec + TLC case enumeration with expected verdicts + comparison against the real filter'),
 }
 
 NOT_YET = {}
